@@ -174,6 +174,7 @@ def fuzz(prop, tier, seed, ctx, log, build):
     execs, cov, ft, corp = (int(x) for x in stats[-1])
     found = sorted(os.listdir(arts))
     viols = []
+    notes = []
     for a in found:
         pth = os.path.join(arts, a)
         one = subprocess.run([binp, "fuzz-one", target, pth], stdout=subprocess.PIPE, stderr=subprocess.PIPE, text=True, env=ctx["env"])
@@ -190,14 +191,15 @@ def fuzz(prop, tier, seed, ctx, log, build):
         elif a.startswith("crash-") and one.returncode != 0:
             out["aborts"].append({"shard": 0, "nshards": 1, "rc": one.returncode, "case": None, "phase_hash": None,
                                   "stderr": one.stderr[-3000:], "flavour": "fuzz"})
-        elif a.startswith("timeout-") and prop in ("C01", "C18"):
-            viols.append({"property": prop, "signature": "fuzz|input-needs-more-than-10s", "detail": "artifact %s" % pth,
-                          "case": 0, "phase": "fuzz", "input_hex": "", "count": 1})
+        elif a.startswith("timeout-"):
+            # libFuzzer's 10 s per-input limit is wall-clock: on a loaded machine it is not a verdict. The input was
+            # re-run above under the logical step budget (fuzz-one); it did not exceed it, so this is only noted.
+            notes.append("libFuzzer timeout artifact %s not reproduced under the step budget (ignored)" % a)
     out["results"].append({"check": prop, "flavour": "fuzz", "seed": seed, "shard": 0, "nshards": 1, "tier": tier,
                            "evaluations": execs, "exhaustive": False, "distinct_extra": 0, "timed_out": False,
                            "wall_s": round(time.time() - t0, 1), "distinct": [],
                            "counters": {"fuzz_executions": execs, "fuzz_corpus": corp}, "maxima": {"fuzz_coverage_edges": cov, "fuzz_features": ft},
-                           "samples": [], "notes": [], "violations": viols})
+                           "samples": [], "notes": notes, "violations": viols})
     out["coverage"] = {"target": target, "executions": execs, "coverage_edges": cov, "features": ft, "corpus": corp,
                        "artifacts": found, "seconds": secs, "sanitizer": "address (cargo-fuzz default)"}
     log("fuzz %s: %d executions, cov %d, corpus %d, %d artifacts" % (target, execs, cov, corp, len(found)))
